@@ -80,6 +80,11 @@ claimed = {
    technique='stateless model checking of the real event/promise/notifier code under a controlled scheduler (preemption-bounded DFS, all interleavings with state cache for the 2-thread scenarios); exhaustive sequential histories for the value notifier',
    text='S: 16 scenarios - Trigger x2 racing Hook/Unhook (call counts judged against recorded call/return intervals, attachment order), WithMaxTriggerCount(1|2) on the event and on a hook under 3 concurrent triggers, a hook that unhooks itself, LinkTo re-linking racing triggers of old and new target, two concurrent LinkTo calls, a pooled hook on a 1-worker pool (checked after the pool drained), promise Event/Event1 Trigger vs OnTrigger vs unsubscribe, value notifier Wait vs Notify vs Deregister and two listener generations. H: every sequential history up to depth 6 (thorough 7) of Listener/Notify/Wait(cancelled|live ctx)/Deregister over 2 values and 3 listeners: Wait succeeds only if Notify(value) was called between creation and deregistration.',
    note='Trusted: shim fidelity incl. select; Event2..9 are generated from the template of Event1 and not exercised separately. Two genuine defects repaired (fix: commits in runtime/valuenotifier).', ref='2 C15'),
+
+ 'C18': dict(cat='model_checking', engine='S',
+   technique='stateless model checking of the real timed Queue/Executor/TaskExecutor under a controlled scheduler with a virtual clock (timer firings are explorer-owned events; early firing is a bounded deviation)',
+   text='21 scenarios: Queue Add/Poll with 2 pollers, Cancel racing Poll, Cancel before Poll, Shutdown with every flag combination racing Add and a poller, max size; Executor with 1-2 workers (tasks then Shutdown, Cancel before/racing the due time, Shutdown(CancelPendingElements)); TaskExecutor (replacement, callback re-scheduling its own id, third schedule, Cancel racing the due time, re-schedule while the previous callback runs). Every interleaving with <= 2 (thorough 3) deviations. Oracle: at most one delivery, virtual time at delivery >= scheduled time unless IgnorePendingTimeouts, an element whose Cancel returned before the delivery decision is never delivered, pending elements are delivered before Shutdown() returns, pollers/Shutdown terminate, replaced tasks never start after the replacing call returned, Cancel(id) results consistent with what runs afterwards.',
+   note='Trusted: vtime models timers and time.Now (virtual clock instead of wall clock); delivery/cancel events are logged atomically with the deciding select/close. Three genuine defects repaired (fix: commits).', ref='2 C18'),
 }
 na_reason = 'check not built yet in this round (engine exists; see DESIGN.md section 9 for the order of work)'
 checks = []
